@@ -186,7 +186,9 @@ def prepare(tier):
     import yaml
     ok = 0
     bad = []
-    for f in sorted(glob.glob('/repo/tests/yaml_files/dict/*_test.yaml') + glob.glob('/repo/tests/yaml_files/list/*_test.yaml')):
+    import os
+    repo = os.environ.get('VERIF_REPO') or '/repo'
+    for f in sorted(glob.glob(repo + '/tests/yaml_files/dict/*_test.yaml') + glob.glob(repo + '/tests/yaml_files/list/*_test.yaml')):
         src = open(f).read()
         if '###ERROR' in src or '###EXPECTED' not in src:
             continue
